@@ -476,6 +476,9 @@ pub fn filter(filter: &Unifiable,
             } // match
         } // while
 
+        // A Nil after the last term keeps make_linked_list() from
+        // splicing in a last term which is itself a list.
+        if filtered_terms.len() > 0 { filtered_terms.push(Unifiable::Nil); }
         let new_list = make_linked_list(false, filtered_terms);
         return Some(new_list);
     }
